@@ -109,3 +109,117 @@ def unit(kind, file, threshold):
 
 
 UNITS = [unit("atomic", "src/multi/channels/ogre_arc/atomic.rs", 2), unit("full_sync", "src/multi/channels/ogre_arc/full_sync.rs", 1)]
+
+# ------------------------------------------------------------------------------------------------------------------------------------
+# fanout_arc_{atomic,full_sync}: `send_derived` of the Arc-based Multi channels for a SYMBOLIC MAX_STREAMS / BUFFER_SIZE (C03 C04):
+# the live list is walked up to the first sentinel; every listed listener's queue gets one clone of the SAME Arc (Arc::clone: same
+# allocation), no other queue is touched, a listener whose queue was empty is woken. These channels WAIT (sleep + retry) while a listener's
+# queue is full -- documented upstream, excluded from C16 by the statement; here 'every listed queue has room' is the precondition, so the
+# waiting arm is shown unreachable instead of being modelled.
+# ------------------------------------------------------------------------------------------------------------------------------------
+SPEC_ARC = r"""
+use core::num::NonZeroU32;
+/// an `Arc<ItemType>`: which allocation it points to (ghost)
+pub struct ArcItem { pub alloc: Ghost<int> }
+impl ArcItem {
+    /// `Arc::clone`: another handle to the SAME allocation
+    #[verifier::external_body]
+    pub fn clone(&self) -> (r: ArcItem) ensures r.alloc == self.alloc { unimplemented!() }
+}
+pub struct Queue { pub seq: Ghost<Seq<int>> }
+pub struct StreamsManagerBase<const MAX_STREAMS: usize> {
+    pub used_streams: [u32; MAX_STREAMS],
+    pub used_streams_count: AtomicU32,
+    pub wakes: Ghost<Seq<nat>>,
+}
+impl<const MAX_STREAMS: usize> StreamsManagerBase<MAX_STREAMS> {
+    #[verifier::external_body]
+    pub fn wake_stream(&mut self, stream_id: u32)
+        requires (stream_id as int) < MAX_STREAMS, old(self).wakes@.len() == MAX_STREAMS,
+        ensures final(self).wakes@ == old(self).wakes@.update(stream_id as int, old(self).wakes@[stream_id as int] + 1),
+                final(self).used_streams == old(self).used_streams, final(self).used_streams_count == old(self).used_streams_count,
+    { }
+    /// Inv_SM (unit streams_bookkeeping proves it for every history): the first `count` entries of the live list are distinct valid ids, the rest is the sentinel
+    pub open spec fn inv_sm(&self) -> bool {
+        &&& self.used_streams_count@ as int <= MAX_STREAMS <= 0x7fff_ffff
+        &&& self.wakes@.len() == MAX_STREAMS
+        &&& forall|i: int| 0 <= i < self.used_streams_count@ ==> (#[trigger] self.used_streams[i] as int) < MAX_STREAMS
+        &&& forall|i: int, j: int| 0 <= i < j < self.used_streams_count@ ==> self.used_streams[i] != self.used_streams[j]
+        &&& forall|i: int| self.used_streams_count@ <= i < MAX_STREAMS ==> self.used_streams[i] == u32::MAX
+    }
+}
+/// `std::thread::sleep(..)` of the waiting arm (R11)
+pub fn env_sleep() { }
+pub struct Channel<const BUFFER_SIZE: usize, const MAX_STREAMS: usize> { pub streams_manager: StreamsManagerBase<MAX_STREAMS>, pub channels: [Queue; MAX_STREAMS] }
+impl<const BUFFER_SIZE: usize, const MAX_STREAMS: usize> Channel<BUFFER_SIZE, MAX_STREAMS> {
+    /// `self.channels.get_unchecked(id).publish_movable(handle)`: ASSUMED ring contract (C01/C02): accepted iff not full
+    #[verifier::external_body]
+    pub fn publish_to(&mut self, stream_id: u32, handle: ArcItem) -> (r: (Option<NonZeroU32>, Option<ArcItem>))
+        requires (stream_id as int) < MAX_STREAMS,
+        ensures final(self).streams_manager == old(self).streams_manager,
+                old(self).channels[stream_id as int].seq@.len() < BUFFER_SIZE ==> (r.0 matches Some(n) && n.get() as int == old(self).channels[stream_id as int].seq@.len() + 1
+                    && final(self).channels[stream_id as int].seq@ == old(self).channels[stream_id as int].seq@.push(handle.alloc@)),
+                old(self).channels[stream_id as int].seq@.len() >= BUFFER_SIZE ==> r.0 is None && final(self).channels[stream_id as int] == old(self).channels[stream_id as int],
+                forall|j: int| 0 <= j < MAX_STREAMS && j != stream_id ==> final(self).channels[j] == old(self).channels[j],
+    { unimplemented!() }
+}
+"""
+
+
+def unit_arc(kind, file, publish_rule):
+    impl = r"ChannelProducer\s*<\s*'a\s*,\s*ItemType\s*,\s*Arc\s*<\s*ItemType\s*>\s*>\s*for\s+\w+\s*<[^{]*(?=\{)"
+    US = "old(self).streams_manager.used_streams"
+    CNT = "old(self).streams_manager.used_streams_count@"
+    f = FnSpec(file, "send_derived", impl=impl, props=["C03", "C04"], attrs="#[verifier::exec_allows_no_decreases_clause]",
+               sig="pub fn send_derived(&mut self, arc_item: &ArcItem) -> (r: bool)",
+               sig_anchor=r"fn send_derived\(&self, arc_item: &Arc<ItemType>\) -> bool",
+               rules=[Rule("R16-iter-index", r"for stream_id in self\.streams_manager\.used_streams\(\)\s*\{",
+                           "let mut vi: usize = 0; while vi < MAX_STREAMS { let stream_id_v = self.streams_manager.used_streams[vi]; let stream_id = &stream_id_v; vi += 1;", count=1,
+                           note="`for x in &array` -> indexed while over a COPY of the entry (same order, same break)"),
+                      Rule("R6-queue", r"let channel = unsafe \{ self\.channels\.get_unchecked\(\*stream_id as usize\) \};", "", count=1, note="unchecked queue lookup folded into publish_to (index bound obligation)"),
+                      publish_rule,
+                      Rule("R11-sleep", r"std::thread::sleep\(Duration::from_millis\(500\)\);", "env_sleep();", count=1)],
+               requires="old(self).streams_manager.inv_sm(), forall|j: int| 0 <= j < MAX_STREAMS ==> old(self).channels[j].seq@.len() < BUFFER_SIZE",
+               ensures="r, final(self).streams_manager.used_streams == " + US + ", final(self).streams_manager.used_streams_count == old(self).streams_manager.used_streams_count,"
+                       "forall|i: int| 0 <= i < " + CNT + " ==> final(self).channels[" + US + "[i] as int].seq@ == old(self).channels[" + US + "[i] as int].seq@.push(arc_item.alloc@),"
+                       "forall|id: int| 0 <= id < MAX_STREAMS && (forall|k: int| 0 <= k < " + CNT + " ==> (#[trigger] " + US + "[k]) as int != id) ==> final(self).channels[id] == old(self).channels[id],"
+                       "forall|i: int| 0 <= i < " + CNT + " && old(self).channels[" + US + "[i] as int].seq@.len() == 0 ==> "
+                       "   final(self).streams_manager.wakes@[" + US + "[i] as int] > old(self).streams_manager.wakes@[" + US + "[i] as int]",
+               loops={0: "invariant_except_break old(self).streams_manager.inv_sm(), self.streams_manager.inv_sm(), vi <= MAX_STREAMS, vi <= " + CNT + ","
+                         " self.streams_manager.used_streams == " + US + ", self.streams_manager.used_streams_count == old(self).streams_manager.used_streams_count,"
+                         " forall|j: int| 0 <= j < MAX_STREAMS ==> old(self).channels[j].seq@.len() < BUFFER_SIZE,"
+                         " forall|k: int| 0 <= k < vi ==> self.channels[" + US + "[k] as int].seq@ == old(self).channels[" + US + "[k] as int].seq@.push(arc_item.alloc@),"
+                         " forall|id: int| 0 <= id < MAX_STREAMS && (forall|k: int| 0 <= k < vi ==> (#[trigger] " + US + "[k]) as int != id) ==> self.channels[id] == old(self).channels[id],"
+                         " forall|id: int| 0 <= id < MAX_STREAMS ==> self.streams_manager.wakes@[id] >= old(self).streams_manager.wakes@[id],"
+                         " forall|k: int| 0 <= k < vi && old(self).channels[" + US + "[k] as int].seq@.len() == 0 ==> "
+                         "    self.streams_manager.wakes@[" + US + "[k] as int] > old(self).streams_manager.wakes@[" + US + "[k] as int],\n"
+                         "ensures old(self).streams_manager.inv_sm(), self.streams_manager.used_streams == " + US + ", self.streams_manager.used_streams_count == old(self).streams_manager.used_streams_count,"
+                         " forall|k: int| 0 <= k < " + CNT + " ==> self.channels[" + US + "[k] as int].seq@ == old(self).channels[" + US + "[k] as int].seq@.push(arc_item.alloc@),"
+                         " forall|id: int| 0 <= id < MAX_STREAMS && (forall|k: int| 0 <= k < " + CNT + " ==> (#[trigger] " + US + "[k]) as int != id) ==> self.channels[id] == old(self).channels[id],"
+                         " forall|k: int| 0 <= k < " + CNT + " && old(self).channels[" + US + "[k] as int].seq@.len() == 0 ==> "
+                         "    self.streams_manager.wakes@[" + US + "[k] as int] > old(self).streams_manager.wakes@[" + US + "[k] as int],\n"
+                         "decreases MAX_STREAMS - vi,",
+                      1: "invariant_except_break old(self).streams_manager.inv_sm(), self.streams_manager.inv_sm(), 1 <= vi <= " + CNT + ", stream_id_v == " + US + "[vi - 1], *stream_id == stream_id_v,"
+                         " self.streams_manager.used_streams == " + US + ", self.streams_manager.used_streams_count == old(self).streams_manager.used_streams_count,"
+                         " forall|j: int| 0 <= j < MAX_STREAMS ==> old(self).channels[j].seq@.len() < BUFFER_SIZE,"
+                         " self.channels[stream_id_v as int] == old(self).channels[stream_id_v as int],"
+                         " forall|k: int| 0 <= k < vi - 1 ==> self.channels[" + US + "[k] as int].seq@ == old(self).channels[" + US + "[k] as int].seq@.push(arc_item.alloc@),"
+                         " forall|id: int| 0 <= id < MAX_STREAMS && (forall|k: int| 0 <= k < vi - 1 ==> (#[trigger] " + US + "[k]) as int != id) ==> self.channels[id] == old(self).channels[id],"
+                         " forall|id: int| 0 <= id < MAX_STREAMS ==> self.streams_manager.wakes@[id] >= old(self).streams_manager.wakes@[id],"
+                         " forall|k: int| 0 <= k < vi - 1 && old(self).channels[" + US + "[k] as int].seq@.len() == 0 ==> "
+                         "    self.streams_manager.wakes@[" + US + "[k] as int] > old(self).streams_manager.wakes@[" + US + "[k] as int],\n"
+                         "ensures self.streams_manager.inv_sm(), self.streams_manager.used_streams == " + US + ", self.streams_manager.used_streams_count == old(self).streams_manager.used_streams_count,"
+                         " forall|k: int| 0 <= k < vi ==> self.channels[" + US + "[k] as int].seq@ == old(self).channels[" + US + "[k] as int].seq@.push(arc_item.alloc@),"
+                         " forall|id: int| 0 <= id < MAX_STREAMS && (forall|k: int| 0 <= k < vi ==> (#[trigger] " + US + "[k]) as int != id) ==> self.channels[id] == old(self).channels[id],"
+                         " forall|id: int| 0 <= id < MAX_STREAMS ==> self.streams_manager.wakes@[id] >= old(self).streams_manager.wakes@[id],"
+                         " forall|k: int| 0 <= k < vi && old(self).channels[" + US + "[k] as int].seq@.len() == 0 ==> "
+                         "    self.streams_manager.wakes@[" + US + "[k] as int] > old(self).streams_manager.wakes@[" + US + "[k] as int],"})
+    f.container = "impl<const BUFFER_SIZE: usize, const MAX_STREAMS: usize> Channel<BUFFER_SIZE, MAX_STREAMS>"
+    return Unit(f"fanout_arc_{kind}", [f], spec=SPEC_ARC,
+                trusted=["publish_to (ring publish_movable: C01/C02), wake_stream, Arc::clone: shims with the contracts printed in the unit"],
+                assumptions=["precondition 'every listed listener queue has room': these channels sleep-and-retry on a full queue (documented upstream; excluded from C16 by the statement)",
+                             "producers racing consumers / listener churn during the loop are NOT decided"])
+
+
+UNITS += [unit_arc("atomic", "src/multi/channels/arc/atomic.rs", Rule("R6-publish", r"\bchannel\.publish_movable\(arc_item\.clone\(\)\)", "self.publish_to(*stream_id, arc_item.clone())", count=1)),
+          unit_arc("full_sync", "src/multi/channels/arc/full_sync.rs", Rule("R6-publish", r"\bchannel\.publish_movable\(arc_item\.clone\(\)\)", "self.publish_to(*stream_id, arc_item.clone())", count=1))]
